@@ -20,7 +20,7 @@ func init() {
 	core.Register(&core.Check{
 		ID:    "C08",
 		Level: "exploration",
-		Rule: "programs chosen to have something to permute (>= 9 unused variables per scope, several type errors, map literals with >= 9 effectful or mixed-type entries, font with several valid/invalid properties, maps built in different orders printed/ranged/compared, rand with a seed, several handlers, accepted and rejected corpus mutants, generated programs); every case is observed R = 24 (quick) / 104 (thorough) times in one process (fresh parser and evaluator each time; Go randomises every map iteration) and, sampled, in fresh `evy run --rand-seed n --svg-out -` processes; observables: parse error text, formatted text, platform trace, result. distinct = distinct case texts whose observation was repeated",
+		Rule:  "programs chosen to have something to permute (>= 9 unused variables per scope, several type errors, map literals with >= 9 effectful or mixed-type entries, font with several valid/invalid properties, maps built in different orders printed/ranged/compared, rand with a seed (in fresh processes also negative, 64-bit and > 2^53 seeds; bounds at and beyond 2^31-1), several handlers, accepted and rejected corpus mutants, generated programs); every case is observed R = 24 (quick) / 104 (thorough) times in one process (fresh parser and evaluator each time; Go randomises every map iteration) and, sampled, in fresh `evy run --rand-seed n --svg-out -` processes; observables: parse error text, formatted text, platform trace, result. distinct = distinct case texts whose observation was repeated",
 		Assumptions: []string{
 			"measured with the image's toolchain: the most frequent iteration order of a 9-entry Go map has share 0.005, of a 2-entry map 0.877: with R repetitions an order dependence on a 2-entry map is missed with probability 0.877^R per case (4% / 1e-6)",
 			"not judged: Program.CalledBuiltinFuncs and Evaluator.EventHandlerNames order (not among the observables of the property)",
@@ -199,6 +199,10 @@ func c08Run(c *core.Ctx, i int) {
 		reps = 104
 	}
 	seed := int64(1 + i%7)
+	cliSeed := []string{fmt.Sprint(seed), "-1", "-42", "9007199254740993", "-9223372036854775808", "2147483648"}[(i/11)%6]
+	if kind != "rand-seeded" {
+		cliSeed = fmt.Sprint(seed)
+	}
 	first := c08Observe(src, seed)
 	c.Distinct(src)
 	for k := 1; k < reps; k++ {
@@ -227,7 +231,7 @@ func c08Run(c *core.Ctx, i int) {
 		_ = os.WriteFile(path, []byte(src), 0o644)
 		var ref string
 		for k := 0; k < 4; k++ {
-			stdout, stderr, code, err := evyCmd(c, "5\nx\n\n7\n", "run", "--rand-seed", fmt.Sprint(seed), "--svg-out", "-", path)
+			stdout, stderr, code, err := evyCmd(c, "5\nx\n\n7\n", "run", "--rand-seed="+cliSeed, "--svg-out", "-", path)
 			if err != nil {
 				c.Inconclusive("evy run: " + err.Error())
 				break
